@@ -139,6 +139,36 @@ def operations(rng):
     return ops
 
 
+def reuse_ops(rng):
+    """name -> factory: builds ONE object, performs the operation once under a fixed seed (preparation), and returns the
+    callable that performs it again on the same object.  Whatever an object remembers from an earlier call (a saved
+    stream state, a cached seed) must not decide the stream after a later call."""
+    from tempest.cluster import GaussianMixture, HierarchicalGaussianMixture
+    u, w = _pool(rng)
+    u2, w2 = _pool(rng, n=120, d=3)
+
+    def twice(make, first, second):
+        def factory():
+            obj = make()
+            np.random.seed(4242)
+            with np.errstate(all="ignore"):
+                first(obj)
+            return lambda: second(obj)
+        return factory
+    ops = {}
+    ops["GaussianMixture(random_state=7): second fit on the same object"] = twice(lambda: GaussianMixture(2, random_state=7), lambda g: g.fit(u, w), lambda g: g.fit(u, w))
+    ops["GaussianMixture(random_state=7): second fit on other data"] = twice(lambda: GaussianMixture(2, random_state=7), lambda g: g.fit(u, w), lambda g: g.fit(u2, w2))
+    ops["GaussianMixture(random_state=None): second fit"] = twice(lambda: GaussianMixture(2), lambda g: g.fit(u), lambda g: g.fit(u, w))
+    ops["GaussianMixture(diag,n_init=3,random_state=1): third fit"] = twice(lambda: GaussianMixture(3, covariance_type="diag", n_init=3, random_state=1),
+                                                                             lambda g: (g.fit(u), g.fit(u2)), lambda g: g.fit(u, w))
+    ops["GaussianMixture(random_state=7): predict after fit"] = twice(lambda: GaussianMixture(2, random_state=7), lambda g: g.fit(u, w), lambda g: (g.predict(u), g.predict_proba(u[:5])))
+    ops["HierarchicalGaussianMixture: second fit on the same object"] = twice(lambda: HierarchicalGaussianMixture(normalize=True), lambda h: h.fit(u, w), lambda h: h.fit(u, w))
+    ops["HierarchicalGaussianMixture: second fit on other data"] = twice(lambda: HierarchicalGaussianMixture(), lambda h: h.fit(u, w), lambda h: h.fit(u2, w2))
+    ops["HierarchicalGaussianMixture(cap=2): fit, predict, fit"] = twice(lambda: HierarchicalGaussianMixture(max_iterations=1, min_points=8),
+                                                                        lambda h: (h.fit(u, w), h.predict(u)), lambda h: h.fit(u))
+    return ops
+
+
 def sampler_ops(cfg):
     """operations on a live sampler, each preceded by a deterministic warm start."""
     def prep(n_iter):
@@ -190,6 +220,9 @@ def op_case(kind, name, cfg, gen_seed):
         if kind == "lib":
             f = operations(np.random.default_rng(gen_seed))[name]
             np.random.seed(amb)
+        elif kind == "reuse":
+            f = reuse_ops(np.random.default_rng(gen_seed))[name]()      # first call under seed 4242, returns the second call
+            np.random.seed(amb)
         else:
             f = sampler_ops(cfg)[name]()      # warm start (reseeds to 4242 inside), returns the op
             np.random.seed(amb)
@@ -198,7 +231,7 @@ def op_case(kind, name, cfg, gen_seed):
             try:
                 f()
             except Exception:
-                if kind != "lib":
+                if kind not in ("lib", "reuse"):
                     raise              # sampler operations must not raise; library fits on degenerate data may
         res[amb] = (state_hash(), float(np.random.rand()), [(a, b, str(c)) for a, b, c in tap.reseeds], tap.total)
     hashes = {res[a][0] for a in res}
@@ -257,6 +290,8 @@ def run():
     for g in range(ck.pick(2, 8)):
         for name in operations(np.random.default_rng(0)).keys():
             otasks.append(("tvf.checks.c09:op_case", dict(kind="lib", name=name, cfg=None, gen_seed=ck.subseed("lib", g)), None))
+        for name in reuse_ops(np.random.default_rng(0)).keys():
+            otasks.append(("tvf.checks.c09:op_case", dict(kind="reuse", name=name, cfg=None, gen_seed=ck.subseed("reuse", g)), None))
     scfgs = [dict(target="bimodal", N=48, clustering=True, kernel="tpcn", mode="vec"),
              dict(target="gauss2", N=32, clustering=False, kernel="rwm", mode="scalar", resample="syst")]
     if not ck.quick:
@@ -284,6 +319,8 @@ def run():
         bad, wit = val
         ck.case(dict(operation=kw["name"], cfg=kw["cfg"], gen=kw["gen_seed"]), nontrivial=True)
         ck.event("library operations probed under 3 ambient seeds")
+        if kw["kind"] == "reuse":
+            ck.event("... of which repeated on an object that had performed the operation before")
         ck.event("np.random reseed calls logged by the tap", wit["reseed_calls"])
         for key, what in bad:
             ck.violation(key, what, kw)
